@@ -226,6 +226,10 @@ def build(case):
         win = sc.array(dims=[dim, "range"],
                        values=np.asarray(w["ranges"], dtype=np.float64).reshape(len(case["estimates"]), 2),
                        unit=xu)
+        if w.get("layout") == "range-dim":
+            win = win.transpose(["range", dim]).copy()
+        elif w.get("layout") == "transposed-view":
+            win = win.transpose(["range", dim])
     kw = {}
     pr = case["params"]
     if pr.get("gbf") is not None or pr.get("nsf") is not None or pr.get("explicit_default"):
@@ -744,7 +748,10 @@ def main_windows(draw, case, k_min, modes=("scalar", "explicit")):
         a, b = 0.5 * one_width() * draw(st.floats(0.5, 1.5)), 0.5 * one_width() * draw(st.floats(0.5, 1.5))
         lo, hi = _widen_to(x, e - a, e + b, k_min)
         ranges.append([float(lo), float(hi)])
-    return {"mode": "explicit", "ranges": ranges}
+    # explicit windows may be stored (dim, 'range') or ('range', dim), as a copy or as a transposed view
+    # (seeded/C17-s3)
+    return {"mode": "explicit", "ranges": ranges,
+            "layout": draw(st.sampled_from(["dim-range", "dim-range", "range-dim", "transposed-view"]))}
 
 
 @st.composite
